@@ -290,7 +290,9 @@ func (maps *trackedMaps) processUnfiltered(ctx context.Context, ef *Filter, filt
 				// if the field is a slice of structs, recurse through them...
 				default:
 					for i := 0; i < field.Len(); i++ {
-						f := field.Index(i)
+						// a value held directly by an interface element is
+						// filtered on a settable copy, which is stored back
+						f, storeBack := elemValue(field.Index(i))
 						if f.Kind() == reflect.Interface {
 							f = f.Elem()
 						}
@@ -310,6 +312,11 @@ func (maps *trackedMaps) processUnfiltered(ctx context.Context, ef *Filter, filt
 						}
 						fkind := f.Kind()
 						switch {
+						case f.Type() == reflect.TypeOf("") || f.Type() == reflect.TypeOf([]uint8{}):
+							// a string or []byte held by an element of a slice of interfaces
+							if err := ef.filterValue(ctx, f, classificationTag, opt...); err != nil {
+								return fmt.Errorf("%s: unable to filter string in slice: %w", op, err)
+							}
 						case fkind == reflect.Struct:
 							if err := ef.filterField(ctx, f, filterOverrides, newMaps, opt...); err != nil {
 								return fmt.Errorf("%s: unable to filter slice of structs: %w", op, err)
@@ -326,7 +333,7 @@ func (maps *trackedMaps) processUnfiltered(ctx context.Context, ef *Filter, filt
 							})
 						case fkind == reflect.Slice:
 							// a slice of slices: the inner slice's elements are filtered too
-							if err := ef.filterSliceElements(ctx, f, filterOverrides, newMaps, opt...); err != nil {
+							if err := ef.filterSliceElements(ctx, f, classificationTag, filterOverrides, newMaps, opt...); err != nil {
 								return fmt.Errorf("%s: unable to filter slice of slices: %w", op, err)
 							}
 						default:
@@ -334,6 +341,9 @@ func (maps *trackedMaps) processUnfiltered(ctx context.Context, ef *Filter, filt
 						}
 						if err := newMaps.processUnfiltered(ctx, ef, filterOverrides, opt...); err != nil {
 							return fmt.Errorf("%s: unable to process maps found in slice: %w", op, err)
+						}
+						if storeBack != nil {
+							storeBack()
 						}
 					}
 				}
